@@ -751,7 +751,7 @@ def replay_mm_pipeline(d):
     return (not p), "multi-mapper pipeline runs: %s" % (p[:3] or "primary wins in both modes")
 
 
-@bounded("C08.pipeline_modes", ["C08"], note="two real pipeline runs (default and --high_memory) on a synthetic two-gene locus with reads whose primary "
+@bounded("C08.pipeline_modes", ["C08", "C05"], note="two real pipeline runs (default and --high_memory) on a synthetic two-gene locus with reads whose primary "
          "and secondary alignments lie on the same chromosome (MAPQ 60, and MAPQ 0 on both records): the uniquely assigned primary wins, the secondary is suppressed in "
          "read_assignments and counts, every read counts once, and both modes agree")
 def c08_pipeline(tier, rng):
